@@ -45,6 +45,9 @@ func (s *Shared) Roots() []any {
 type Op struct {
 	Name string
 	Run  func(s *Shared) string
+	// Heavy operations (thousands of statements) take part in the history search and in the
+	// race pass, not in the schedule enumeration.
+	Heavy bool
 }
 
 type Scenario struct {
@@ -303,7 +306,7 @@ func ForEco(name string) Scenario {
 	// many comparisons of a deeply nested / very long version in ONE operation (depth counters,
 	// recursion guards and scratch state that leak a little per call)
 	deep := va + strings.Repeat("-0", 40) + "-1"
-	ops = append(ops, Op{Name: "DeepCompare x40", Run: func(s *Shared) string {
+	ops = append(ops, Op{Name: "DeepCompare x40", Heavy: true, Run: func(s *Shared) string {
 		d, err := s.Eco.Parse(deep)
 		if err != nil {
 			d, err = s.Eco.Parse(va + strings.Repeat(".0", 40) + ".1")
